@@ -180,12 +180,13 @@ pub fn jobs_with(tier: Tier, seed: u64, need_rw: bool) -> Vec<Job> {
     }
     // refusal clause on three-operation circuits (operations whose producers sit in different layers):
     // closed circuits, so no symbolic values are involved
-    let base: Vec<u64> = vec![9, 4, 10];
-    for perm in crate::plain::perms(3) {
-        let kinds: Vec<u64> = perm.iter().map(|i| base[*i]).collect();
-        let k2 = kinds.clone();
-        let gen = move || PV::List(vec![PV::OH(gen_circuit(&k2, 3, 0, 0)), PV::of_ts(&[])]);
-        cases.push((1, crate::case!(format!("eval-refusal kinds={:?} W=3 closed", kinds), gen, c16_eval, oracle_for(kinds.clone(), true), 2)));
+    for base in [vec![9u64, 4, 10], vec![9, 0, 7]] {
+        for perm in crate::plain::perms(3) {
+            let kinds: Vec<u64> = perm.iter().map(|i| base[*i]).collect();
+            let k2 = kinds.clone();
+            let gen = move || PV::List(vec![PV::OH(gen_circuit(&k2, 3, 0, 0)), PV::of_ts(&[])]);
+            cases.push((1, crate::case!(format!("eval-refusal kinds={:?} W=3 closed", kinds), gen, c16_eval, oracle_for(kinds.clone(), true), 2)));
+        }
     }
     // three-operation circuits restricted (by assumption) to the inputs of the value clause:
     // acyclic, every node written at most once, every node that is read is written
